@@ -287,6 +287,17 @@ def base_cases(rng, tier):
     return cases
 
 
+class SanCase(Case):
+    """a case of the ASan+UBSan subset: a sanitizer abort gets a signature that names the source location, so that
+    a defect of the encoder that is not a determinism matter can be listed as a known finding without masking others"""
+
+    @property
+    def sig_override(self):
+        import re
+        m = re.search(r"src/draco/([\w/.]+:\d+)", self.hout or "")
+        return ("sanitizer:" + m.group(1)) if m else None
+
+
 def with_envs(base, envs, control_ref, flavour="plain"):
     out = []
     for label, env in envs:
@@ -336,7 +347,7 @@ def generate(rng, tier):
         cases += vg
         # and the base set once under ASan+UBSan
         for b in base[::3]:
-            c = Case(b.op, model=False, oracle=env_oracle(b, "asan"), tags=("flavour:asan",), flavour="asan", nontrivial=False, note=b.note)
+            c = SanCase(b.op, model=False, oracle=env_oracle(b, "asan"), tags=("flavour:asan",), flavour="asan", nontrivial=False, note=b.note)
             cases.append(c)
     return cases
 
@@ -347,7 +358,9 @@ def replay_cases(lines):
     for l in lines:
         if l.startswith("det_env") or l.startswith("det_control"):
             continue
-        refs.append(Case(l, model=False, oracle=detdec_oracle if l.startswith("det_dec") else det_oracle))
+        cls = SanCase if os.environ.get("VERIF_REPLAY_FLAVOUR") == "asan" else Case
+        refs.append(cls(l, model=False, oracle=detdec_oracle if l.startswith("det_dec") else det_oracle,
+                        flavour=os.environ.get("VERIF_REPLAY_FLAVOUR", "plain") if not env else "plain"))
     out = list(refs)
     if env:
         for b in refs:
